@@ -494,3 +494,41 @@ def r02f(R):
     R.check(top, 'top-level climb accepts every binary operator', ok,
             'expression() starts the climb with a minimum precedence that '
             'excludes some operator')
+
+
+@rule('R02.h', ('C02', 'C06'), 'the value of an expression is delivered to '
+      'where it is wanted: popped into a register / variable, or left on the '
+      'evaluation stack for an enclosing expression', floor=4,
+      decides='the same value results wherever the expression is used - as a '
+              'condition, a right-hand side, an operand of another expression')
+def r02h(R):
+    A = R.A
+    from ..const import EnumVal
+    for fname in ('Parser._rvalue_expr', 'Parser._rvalue_not'):
+        f = A.func(PARSE, fname)
+        cfg = A.cfg(f)
+        dest = f.params[1]
+        pops = [n for n in cfg.nodes for c in n.calls()
+                if isinstance(c.func, ast.Attribute) and c.func.attr == 'pop'
+                and c.args and norm(c.args[0]) == dest]
+        pops += [n for n in cfg.nodes for call, ops in A.emission_sites(f)
+                 for o, a in ops if o == 'POP' and a and norm(a[0]) == dest
+                 and n in A.node_of_call(f, call)]
+        # wanted in a register: every successful path pops into it
+        p = A.path_under(f, {dest: EnumVal('Register', 'HUE')},
+                         A.success_return(f), avoid=pops)
+        R.check(f, '%s: destination is a register -> POP <dest>' % fname.split('.')[1],
+                bool(pops) and p is None,
+                'the value computed by %s stays on the evaluation stack '
+                'instead of being moved to its destination: a condition tests '
+                'a stale result, an assignment stores nothing'
+                % fname.split('.')[1], path=path_text(p) if p else None)
+        # wanted on the stack (operand of an enclosing expression): no pop
+        live = set(n.id for n in A.nodes_under(f, {dest: EnumVal('OpCode', 'PUSH')}))
+        gone = [n for n in pops if n.id in live]
+        R.check(f, '%s: destination is the stack -> value left there'
+                % fname.split('.')[1], not gone,
+                'when the value is an operand of an enclosing expression it '
+                'is popped off the stack (into the pseudo destination PUSH) '
+                'and lost: the outer operator runs on an empty stack and the '
+                'machine stops')
